@@ -6,11 +6,15 @@ Open Scope N_scope.
    noValue flags which come from the verif export) *)
 Record obs := Obs {
   o_len : Z;                                              (* Len() *)
-  o_all : list (bytes * bytes);                           (* All() *)
+  o_all : list (bytes * bytes);                           (* All() or VisitAll() *)
   o_nov : list bool;                                      (* noValue flag of every entry, in order *)
-  o_qs : bytes;                                           (* QueryString() *)
+  o_pre : bytes;                                          (* dst prefix handed to AppendBytes ([] for QueryString/String/WriteTo) *)
+  o_qs : bytes;                                           (* AppendBytes(pre) / QueryString() / String() / WriteTo output *)
+  o_bytesapi : bool;                                      (* getters below were the []byte variants (PeekBytes = peekArgBytes, ...) *)
   o_probe : list (option bytes * list bytes * bool);      (* per probe key: Peek (None = nil), PeekMulti, Has *)
-  o_rt : list entry                                       (* entries of a second Args after ParseBytes(QueryString()) *)
+  o_rt : list entry;                                      (* entries of a second Args after ParseBytes(QueryString()) *)
+  o_copy : option (list entry);                           (* entries of a third, long-lived Args after a.CopyTo(it), when done at this step *)
+  o_helpers : bool                                        (* harness-side: GetUint/GetUintOrZero/GetBool/GetUfloat agree with ParseUint/ParseUfloat/literal set on Peek; early break of All() *)
 }.
 
 Fixpoint zip_entries (l : list (bytes * bytes)) (n : list bool) : list entry :=
@@ -35,26 +39,32 @@ Definition probe_eqb (x y : option bytes * list bytes * bool) : bool :=
 Definition reparse (b a : args) : args :=
   match ParseBytes b (QueryString a) with Some b' => b' | None => mkArgs [(mkKV (s2b "OUT-OF-FUEL") [] false)] [] end.
 
-Definition obs_corr (probe : list bytes) (a b : args) (o : obs) : bool :=
+Definition copy_step (a c : args) (o : obs) : args :=
+  match o_copy o with Some _ => CopyTo a c | None => c end.
+
+Definition obs_corr (probe : list bytes) (a b c : args) (o : obs) : bool :=
   (Len a =? o_len o)%Z
   && list_eqb kvpair_eqb (All a) (o_all o)
   && list_eqb Bool.eqb (map kv_noValue (live a)) (o_nov o)
-  && beq (QueryString a) (o_qs o)
-  && list_eqb probe_eqb (map (fun k => (Peek a k, PeekMulti a k, Has a k)) probe) (o_probe o)
-  && mmap_eqb (entries b) (o_rt o).
+  && beq (AppendBytes a (o_pre o)) (o_qs o)
+  && list_eqb probe_eqb (map (fun k => ((if o_bytesapi o then PeekBytes a k else Peek a k), PeekMulti a k, Has a k)) probe) (o_probe o)
+  && mmap_eqb (entries b) (o_rt o)
+  && match o_copy o with Some ce => mmap_eqb (entries c) ce | None => true end
+  && o_helpers o.
 
-Fixpoint corr_steps (probe : list bytes) (a b : args) (steps : list (op * obs)) : bool :=
+Fixpoint corr_steps (probe : list bytes) (a b c : args) (steps : list (op * obs)) : bool :=
   match steps with
   | [] => true
   | (o, ob) :: r =>
       let a' := step a o in
       let b' := reparse b a' in
-      obs_corr probe a' b' ob && corr_steps probe a' b' r
+      let c' := copy_step a' c ob in
+      obs_corr probe a' b' c' ob && corr_steps probe a' b' c' r
   end.
 
 Definition corr_ok (c : c28case) : bool :=
   match c with
-  | CSeq probe steps => corr_steps probe emptyArgs emptyArgs steps
+  | CSeq probe steps => corr_steps probe emptyArgs emptyArgs emptyArgs steps
   | CRaw raw parsed qs reparsed =>
       match ParseBytes emptyArgs raw with
       | Some a => mmap_eqb (entries a) parsed && beq (QueryString a) qs
